@@ -256,6 +256,9 @@ def rules(rep, facts):
                    'tables holding nothing, a value, dotted-key values only or a sub-table only, at the root and under a path, as `[table]` and as `[[table]]` element', floor=30)
     from .shared import visit_table_model
     visit_table_model(rep, R13, facts)
+    if 'parse' in feats or True:
+        from .rules_print import r15_printed_documents
+        r15_printed_documents(rep, facts)
     R8 = rep.rule('C06/R8', 'no order-breaking operation / unstable sort in the printers (the same structure always prints the same, valid header order)', floor=2)
     order_ops(rep, R8, facts)
 
